@@ -24,9 +24,15 @@
 (* panics.  With fuel = Inf the same text gives the fault-free semantics   *)
 (* and Inf.cmp - fuel.cmp is the number of comparisons (Cost.tla).         *)
 (***************************************************************************)
-EXTENDS Integers, Sequences, FiniteSets, TLC
+EXTENDS Integers, Sequences, FiniteSets, TLC, IOUtils
 
 Empty == [keys |-> <<>>, pri |-> <<>>, heap |-> <<>>, qp |-> <<>>, size |-> 0]
+
+\* Panic safety of the sift-up (defect D5, fixed in /repo): bubble_up now completes the swap at every
+\* level (the tables are mutually inverse at every comparison) and push bumps `size` before sifting.
+\* Setting the environment variable OLDBUBBLE re-creates the 2.3.1 behaviour (moving hole, size bumped
+\* last) - used only to show that MCFault finds the undefined behaviour it led to.
+SwapBubble == "OLDBUBBLE" \notin DOMAIN IOEnv
 
 INF == 1000000
 Inf == [cmp |-> INF, look |-> INF, cb |-> INF]
@@ -195,10 +201,10 @@ FromVecLoop(s, pairs, f) ==                                          \* store.rs
 StoreFromVec(pairs, f) == FromVecLoop(Empty, pairs, f)
 
 \* store.rs:560 / 595 (last wins; tables appended with `size`, size bumped per element).
-\* One cb tick per element pulled from the user's iterator.
+\* One cb tick per call of the user's iterator (the elements and the final None).
 RECURSIVE ExtendLoop(_,_,_)
 ExtendLoop(s, pairs, f) ==
-  IF pairs = <<>> THEN Ok(s, f, <<>>) ELSE
+  IF pairs = <<>> THEN (IF f.cb = 0 THEN Panic(s, f) ELSE Ok(s, TickCb(f), <<>>)) ELSE    \* the call returning None
   IF f.cb = 0 THEN Panic(s, f) ELSE
   IF f.look = 0 THEN Panic(s, f) ELSE
   LET k == pairs[1][1]  p == pairs[1][2]  f1 == TickLook(TickCb(f)) IN
